@@ -42,6 +42,11 @@ var keyPool = func() []uint16 {
 		pool = append(pool, c)
 	}
 	pool = append(pool, 0x2f0, 0x2fe, 0x1ff) // no names: spelled xNNN
+	// the rest of the code space, sampled: the upper keyboard keys, every BTN_ block (misc, mouse, joystick, digitiser,
+	// wheel, trigger-happy up to its last named button), the unnamed codes below KEY_MAX, KEY_MAX itself, and codes a
+	// configuration may name in hex although no kernel reports them
+	pool = append(pool, 89, 100, 119, 127, 128, 183, 240, 255, 0x100, 0x10f, 0x110, 0x117, 0x120, 0x12f, 0x140, 0x14f, 0x150, 0x160,
+		0x200, 0x220, 0x2c0, 0x2df, 0x2e0, 0x2e7, 0x2e8, 0x2ff, 0x300, 0x3ff, 0x1000, 0x3fff)
 	return pool
 }()
 
